@@ -100,18 +100,34 @@ def mutateAll (f : Heap → Val → Except MErr Heap) : Heap → List Val → He
     | .ok h' => mutateAll f h' rest
     | .error e => (h, some e)
 
-inductive MutKind where | assign (v : Val) | delete deriving Repr
+/-- `Assign(path, v, missing=…)` / `Delete(path, ignore_missing=ignore)`; `op` is the spelling of the
+    final step (`P` plain segment, `[` T[...], `.` T.attr).  `missing`: a factory was given — it is
+    consulted only when the path fails *before* its first wildcard (C11's subject; the driver skips
+    those cases): below a wildcard a failing entry is dropped, with or without `missing`. -/
+inductive MutKind where
+  | assign (op : String) (v : Val) (missing : Bool)
+  | delete (op : String) (ignore : Bool)
+  deriving Repr
 
-/-- Assign / Delete whose destination path is `steps ++ [("P", key)]` -/
+/-- the operation on one entry -/
+def mutOp (cs : Classes) (key : Val) : MutKind → Heap → Val → Except MErr Heap
+  | .assign op v _ => fun h d => assignOp cs op h d key v
+  | .delete op ignore => fun h d => delOp cs op ignore h d key
+
+/-- a Delete with `ignore_missing=True` whose parent path cannot be reached does nothing -/
+def ignoresMiss : MutKind → Bool
+  | .delete _ ignore => ignore
+  | .assign .. => false
+
+/-- Assign / Delete whose destination path is `steps ++ [(op, key)]`: **every entry** the parent
+    path addresses is operated on, in order; with `ignore_missing` an entry that lacks the key /
+    index / attribute is left alone and the following entries are still operated on -/
 def refMutate (cs : Classes) (h : Heap) (steps : List (String × Val)) (key : Val) (kind : MutKind)
     (target : Val) : Except EErr (Heap × Option MErr) :=
   match refEval cs h steps target with
+  | .error (.pae e) => if ignoresMiss kind then .ok (h, none) else .error (.pae e)
   | .error e => .error e
-  | .ok r =>
-    let f : Heap → Val → Except MErr Heap := match kind with
-      | .assign v => fun h d => assignOne cs h d key v
-      | .delete => fun h d => deleteOne cs h d key
-    .ok (mutateAll f h (leaves (stars steps) r))
+  | .ok r => .ok (mutateAll (mutOp cs key kind) h (leaves (stars steps) r))
 
 /-! ### observation and checker -/
 
@@ -134,9 +150,10 @@ inductive Obs where
   deriving Repr
 
 def merrName (kind : MutKind) : MErr → String
-  | .assign _ => (match kind with | .assign _ => "PathAssignError" | .delete => "PathDeleteError")
+  | .assign _ => (match kind with | .assign .. => "PathAssignError" | .delete .. => "PathDeleteError")
   | .unregistered => "UnregisteredTarget"
   | .typeError => "TypeError"
+  | .raw c => c
 
 /-- the model's observation of a read -/
 def modelRead (cs : Classes) (h : Heap) (steps : List (String × Val)) (target : Val) : Obs :=
@@ -145,18 +162,16 @@ def modelRead (cs : Classes) (h : Heap) (steps : List (String × Val)) (target :
   | .error (.pae _) => .pae
   | .error (.other c) => .other c
 
-/-- `Assign(path, val).glomit` / `Delete(path).glomit` with the destination path
-    `steps ++ [("P", key)]` -/
+/-- `Assign(path, val).glomit` / `Delete(path, ignore_missing).glomit` with the destination path
+    `steps ++ [(op, key)]`: the `try` is around the fetch of the parent only (`except
+    PathAccessError: if not self.ignore_missing: raise`), `_apply_for_each` runs in its `else` -/
 def modelMutate (cs : Classes) (h : Heap) (steps : List (String × Val)) (key : Val) (kind : MutKind)
     (target : Val) : Obs :=
   match evalSteps cs h steps target with
-  | .error (.pae _) => .pae
+  | .error (.pae _) => if ignoresMiss kind then .mutated h none else .pae
   | .error (.other c) => .other c
   | .ok r =>
-    let f : Heap → Val → Except MErr Heap := match kind with
-      | .assign v => fun h d => assignOne cs h d key v
-      | .delete => fun h d => deleteOne cs h d key
-    let (h', e) := applyForEach (stars steps) f h r
+    let (h', e) := applyForEach (stars steps) (mutOp cs key kind) h r
     .mutated h' (e.map (merrName kind))
 
 /-- The property on an observation: a read yields exactly the reference result (same entries —
